@@ -406,9 +406,12 @@ func (eng *Engine) verifyFunc(fn *ssa.Function, fc *FuncContract) (res FuncResul
 		if occ[i] > 0 {
 			fullName += "~" + itoa(occ[i])
 		}
-		if hint := eng.hints.get(fullName); hint != nil && o.Kind != "cover" {
+		tryHint := func(hint map[string]bool, tag string) bool {
+			if hint == nil || o.Kind == "cover" {
+				return false
+			}
 			ht, _, _ := hintedText(text, hint)
-			hr := solveWith(eng.workDir, name+".hint", ht, minInt(to, 10), []string{"z3-5.1.0", "z3-4.8.12", "cvc5-1.0"})
+			hr := solveWith(eng.workDir, name+".hint"+tag, ht, minInt(to, 10), []string{"z3-5.1.0", "z3-4.8.12", "cvc5-1.0"})
 			if hr.status == "unsat" {
 				if eng.crossCheck {
 					// independent confirmation by a solver of the other family (z3 vs cvc5) on the same query
@@ -416,7 +419,7 @@ func (eng *Engine) verifyFunc(fn *ssa.Function, fc *FuncContract) (res FuncResul
 					if strings.HasPrefix(hr.backend, "cvc5") {
 						other = []string{"z3-5.1.0", "z3-4.8.12"}
 					}
-					cr := solveWith(eng.workDir, name+".hint.x", ht, to, other)
+					cr := solveWith(eng.workDir, name+".hint.x"+tag, ht, to, other)
 					switch cr.status {
 					case "unsat":
 						hr.backend += "+confirmed:" + cr.backend
@@ -430,10 +433,17 @@ func (eng *Engine) verifyFunc(fn *ssa.Function, fc *FuncContract) (res FuncResul
 				}
 			}
 			if hr.status == "unsat" {
-				hr.backend += "+hint"
+				hr.backend += "+hint" + tag
 				res.Obls[i] = OblResult{Obligation: o, Status: hr.status, Backend: hr.backend, TimeS: hr.timeS, Output: hr.output, File: filepath.Join(eng.workDir, sanitizeFile(name)+".hint.smt2")}
-				return
+				return true
 			}
+			return false
+		}
+		if tryHint(eng.hints.get(fullName), "") {
+			return
+		}
+		if !eng.updateHints && tryHint(eng.hints.getUnion(fn.String()), ".fn") {
+			return
 		}
 		defer func() {
 			if eng.updateHints && eng.hints != nil && o.Kind != "cover" && res.Obls[i].Status == "unsat" {
